@@ -25,6 +25,21 @@ Let r := l_sid L.
 
 (** ** sid_resolver *)
 
+(* fmt(template)(data) == sid *)
+Definition canonical (t : string) (d : dict string) (s : string) : outcome bool :=
+  match find_tpl r t with
+  | None => Raise KeyError           (* get_format_for(template) is None: unreachable *)
+  | Some tp => do f <- fmt (tp_items tp) d; Ok (String.eqb f s)
+  end.
+
+Fixpoint first_canonical (l : list (string * dict string)) (s : string) : outcome (option (string * dict string)) :=
+  match l with
+  | [] => Ok None
+  | (t, d) :: rest =>
+      do ok <- canonical t d s;
+      if ok then Ok (Some (t, d)) else first_canonical rest s
+  end.
+
 (* sid_to_dict(sid, _type): None = (None, None) *)
 Definition sid_to_dict (s : string) (ty : string) : outcome (option (string * dict string)) :=
   do res <- (if sempty ty
@@ -33,12 +48,10 @@ Definition sid_to_dict (s : string) (ty : string) : outcome (option (string * di
   match res with
   | None => Ok None
   | Some (t, d) =>
-      match find_tpl r t with
-      | None => Raise KeyError           (* get_format_for(template) is None: unreachable *)
-      | Some tp =>
-          do f <- fmt (tp_items tp) d;
-          if String.eqb f s then Ok (Some (t, d)) else Ok None
-      end
+      do ok <- canonical t d s;
+      if ok then Ok (Some (t, d))
+      else if sempty ty then do all <- resolve_all r s; first_canonical all s
+      else Ok None
   end.
 
 Definition sid_to_dicts (s : string) : outcome (list (string * dict string)) := resolve_all r s.
@@ -68,7 +81,12 @@ Definition apply_query (s query ty : string) (fields : dict string)
   let unapplied := Ok (s ++ "?" ++ query, ty, fields) in
   let finish (t : string) :=
       do ns <- rdict_to_sid new_data t;
-      if sempty ns then Raise SpilException else Ok (ns, t, new_data) in
+      if sempty ns then Raise SpilException else
+      do back <- sid_to_dict ns t;
+      match back with
+      | Some (_, ordered) => Ok (ns, t, ordered)
+      | None => unapplied
+      end in
   match new_types with
   | [] => unapplied
   | [t] => finish t
